@@ -143,4 +143,28 @@ def slice_base(e):
         if isinstance(e, tuple) and e and e[0] == "cast":
             e = e[1]
             continue
+        # x[..] is x
+        if isinstance(e, tuple) and e and e[0] in ("pure", "call") and short(e[1]) == "index" and len(e[2]) == 2:
+            r = e[2][1]
+            while isinstance(r, tuple) and r and r[0] == "ref":
+                r = r[1]
+            if (r[0] == "agg" and (r[2] or "").endswith("RangeFull")) or (r[0] == "const" and r[1].replace("const ", "").strip() in ("..", "std::ops::RangeFull", "RangeFull")):
+                e = e[2][0]
+                continue
         return e
+
+
+def mask_of(e):
+    """K if e is a normal form of `(x & K) != 0`; ("inv", K) for `(x & K) == 0`."""
+    e = strip_casts(e)
+    inv = False
+    while e[0] == "unop" and e[1] == "Not":
+        inv = not inv
+        e = e[2]
+    if e[0] == "binop" and e[1] in ("Ne", "Eq", "Gt") and e[3] == ("int", 0) and e[2][0] == "binop" and e[2][1] == "BitAnd" and e[2][3][0] == "int":
+        if e[1] == "Eq":
+            inv = not inv
+        return ("inv", e[2][3][1]) if inv else e[2][3][1]
+    if e[0] == "binop" and e[1] == "Eq" and e[2][0] == "binop" and e[2][1] == "BitAnd" and e[2][3][0] == "int" and e[3] == e[2][3]:
+        return ("inv", e[3][1]) if inv else e[3][1]
+    return None
